@@ -3,7 +3,9 @@ package checks
 import (
 	"encoding/json"
 	"fmt"
+	webp "github.com/deepteams/webp"
 	"os"
+	"time"
 
 	"github.com/deepteams/webp/internal/lossy"
 	"github.com/deepteams/webp/internal/zzverif/fw"
@@ -13,8 +15,9 @@ import (
 )
 
 // DBG is a development aid, not a registered property check:
-//   harness DBG quick -out /dev/null vp8diff <file>     compare VP8 planes repo vs reference
-//   harness DBG quick -out /dev/null c02file <json>     write the bytes of a C02 case to /tmp
+//
+//	harness DBG quick -out /dev/null vp8diff <file>     compare VP8 planes repo vs reference
+//	harness DBG quick -out /dev/null c02file <json>     write the bytes of a C02 case to /tmp
 func init() {
 	fw.Register(&fw.Check{ID: "DBG", Level: "other", Run: func(e *fw.Env, r *fw.Result) {
 		pin()
@@ -83,4 +86,25 @@ func init() {
 		}
 	}})
 	_ = imgs.Make
+}
+
+func init() {
+	fw.Register(&fw.Check{ID: "DBGT", Level: "other", Run: func(e *fw.Env, r *fw.Result) {
+		for _, pol := range []string{"fresh", "recent"} {
+			pin()
+			if pol == "recent" {
+				setPoolsMostRecent()
+			}
+			img := imgs.Make(8, 8, "c4", "opaque", 1)
+			for _, ll := range []bool{true, false} {
+				o := webp.DefaultOptions()
+				o.Lossless = ll
+				t0 := time.Now()
+				for i := 0; i < 200; i++ {
+					encode(img, o)
+				}
+				fmt.Printf("pool=%s lossless=%v: %.3f ms/encode\n", pol, ll, time.Since(t0).Seconds()*1000/200)
+			}
+		}
+	}})
 }
